@@ -56,7 +56,12 @@ Definition show_wrapper (w : wrapper_out) : list string :=
   [ "wrapper " ++ n ++ " variants=" ++ commas (map (fun p => fst p ++ ":" ++ snd p) (wo_variants w));
     "wrapper " ++ n ++ " tables=" ++ commas (map (show_module (wo_kind w)) (wo_modules w));
     "wrapper " ++ n ++ " bridged=" ++
-      commas (map (fun p : string * bool * bool => let '(v, r, c) := p in v ++ ":" ++ show_bool r ++ ":" ++ show_bool c) (wo_bridged w)) ].
+      commas (map (fun p : string * bool * bool => let '(v, r, c) := p in v ++ ":" ++ show_bool r ++ ":" ++ show_bool c) (wo_bridged w));
+    "wrapper " ++ n ++ " schema=any_of:" ++ commas (map (show_module (wo_kind w)) (wo_modules w)) ]
+  ++ (match wo_kind w with
+      | KQuery => ["wrapper " ++ n ++ " responses=flatten:" ++ commas (map (show_module (wo_kind w)) (wo_modules w))]
+      | _ => []
+      end).
 
 Definition show_opt_struct (o : option struct_out) : list string :=
   match o with Some s => show_struct s | None => [] end.
